@@ -52,6 +52,7 @@ def gen_params(rng):
         "name_suffix": rng.choice(["g", "classic_generated_instance", "x_y"]),
         "seed": (rng.choice([0, 0, 1, 42, 2 ** 31]) if rng.random() < 0.2 else rng.randrange(1 << 16)) if rng.random() < 0.7 else None,
         "iteration_limit": rng.randint(0, 5) if rng.random() < 0.5 else None,
+        "omit_defaults": rng.random() < 0.5,  # arguments equal to their documented default are left out
     }
 
 
@@ -86,12 +87,17 @@ def make(g):
     from job_shop_lib.generation import GeneralInstanceGenerator
 
     t = lambda v: tuple(v) if isinstance(v, list) else v  # noqa: E731
-    return GeneralInstanceGenerator(
+    kw = dict(
         num_jobs=t(g["num_jobs"]), num_machines=t(g["num_machines"]), duration_range=tuple(g["duration_range"]),
         allow_less_jobs_than_machines=g["allow_less_jobs_than_machines"], allow_recirculation=g["allow_recirculation"],
         machines_per_operation=t(g["machines_per_operation"]), name_suffix=g["name_suffix"], seed=g["seed"],
         iteration_limit=g["iteration_limit"],
     )
+    if g.get("omit_defaults"):
+        documented = dict(num_jobs=(10, 20), num_machines=(5, 10), duration_range=(1, 99), allow_less_jobs_than_machines=True, allow_recirculation=False,
+                          machines_per_operation=1, name_suffix="classic_generated_instance", seed=None, iteration_limit=None)
+        kw = {k: v for k, v in kw.items() if not (type(v) is type(documented[k]) and v == documented[k])}
+    return GeneralInstanceGenerator(**kw)
 
 
 def rng_of(v):
